@@ -96,6 +96,21 @@ VALID_SPACE_ARRAYS = (
 )
 
 
+def is_slice_idx_expr(e) -> bool:
+    """`cls._slice_idx_expr(cube, slice_idx)` in any argument form (positional or by keyword), or the bare partition index"""
+    import ast as _ast
+
+    from ..symex import u as _u
+
+    t = _u(e)
+    if t in ("slice_idx", "self._slice_idx"):
+        return True
+    if isinstance(e, _ast.Call) and isinstance(e.func, _ast.Attribute) and e.func.attr == "_slice_idx_expr" and _u(e.func.value) in ("cls", "self"):
+        vals = [_u(a) for a in e.args] + [_u(k.value) for k in e.keywords]
+        return vals == ["cube", "slice_idx"] and all(k.arg in ("cube", "slice_idx") for k in e.keywords)
+    return False
+
+
 def slice_index_space(ctx: Ctx, rule: str):
     """`slice_idx` (the partition index) counts the VALID elements of the table dimension.  Every subscript by it must
     therefore index a collection in that space: `valid_elements`, an array already restricted to valid elements (the
@@ -115,8 +130,7 @@ def slice_index_space(ctx: Ctx, rule: str):
         for node in _ast.walk(m.node):
             if not isinstance(node, _ast.Subscript) or not isinstance(node.ctx, _ast.Load):
                 continue
-            idx = _u(node.slice)
-            if idx not in ("slice_idx", "self._slice_idx", "cls._slice_idx_expr(cube, slice_idx)", "self._slice_idx_expr(cube, slice_idx)"):
+            if not is_slice_idx_expr(node.slice):
                 continue
             res = res or resolver(m.node, multi=True)
             bases = [_u(b) for b in res(node.value)]
